@@ -30,3 +30,9 @@ impl<'a> IteratorSpecImpl for VBytes<'a> {
         if 0 <= i < vbytes_remaining(self).len() { Some(vbytes_remaining(self)[i]) } else { None }
     }
 }
+
+//# assumes: a str has no UTF-8 bytes exactly when it has no characters
+#[verifier::external_body]
+pub broadcast proof fn axiom_str_bytes_empty(s: &str)
+    ensures (s@.len() == 0) <==> (#[trigger] str_bytes(s).len() == 0)
+{}
